@@ -51,6 +51,8 @@ pub struct TState {
     chunk_then: usize,
     short_writes: Vec<usize>,
     hello_version: Option<(u8, u8)>,
+    tls_partial_tail: bool,
+    partial_done: bool,
     sw_i: usize,
     pub pending: Vec<u8>,
     nread: u64,
@@ -132,6 +134,8 @@ impl TState {
             chunk_i: 0,
             chunk_then: t["then"].as_u64().unwrap_or(0) as usize,
             short_writes: usz(&t["short_writes"]),
+            tls_partial_tail: t["tls_partial_tail"].as_bool().unwrap_or(false),
+            partial_done: false,
             hello_version: t["hello_version"].as_array().map(|a| {
                 (a[0].as_u64().unwrap_or(3) as u8, a[1].as_u64().unwrap_or(1) as u8)
             }),
@@ -289,6 +293,29 @@ impl TState {
                         if reply && lockstep {
                             self.owed = true;
                         }
+                    }
+                    // a TLS client that is done closes its side properly (close_notify); without it the end of the
+                    // transport stream is indistinguishable from a truncation
+                    if !self.tls_partial_tail && !self.partial_done && t.next_plain >= self.msgs.len() && !(lockstep && self.owed) {
+                        t.conn.send_close_notify();
+                        self.partial_done = true;
+                        self.rec.borrow_mut().emit(json!({"e": "tls_close"}));
+                    }
+                    // "partial_tail": once the script is out, the client starts one more record (a ping) and the
+                    // connection is cut in the middle of it
+                    if self.tls_partial_tail && !self.partial_done && t.next_plain >= self.msgs.len() && !(lockstep && self.owed) {
+                        let _ = t.conn.writer().write_all(&[1u8, 0, 0, 0, 14]);
+                        let mut buf = Vec::new();
+                        while t.conn.wants_write() {
+                            let _ = t.conn.write_tls(&mut buf);
+                        }
+                        let half = buf.len() / 2;
+                        self.tls_out.extend_from_slice(&buf[..half]);
+                        t.produced += half;
+                        self.partial_done = true;
+                        self.rec
+                            .borrow_mut()
+                            .emit(json!({"e": "tls_partial", "bytes": half}));
                     }
                 }
                 if t.conn.wants_write() {
